@@ -26,6 +26,8 @@ var layerBOptions = [][]string{
 	{"optimizeTables = true", "recursiveLookaheads = true"},
 	{"recursiveLookaheads = true", "cancellable = true"},
 	{"optimizeTables = true", "defaultReduce = true"},
+	{"recursiveLookaheads = true", "minimizeDFA = true"},
+	{"minimizeDFA = true"},
 }
 
 func nested(opt int) bool {
